@@ -207,19 +207,43 @@ func (obj *Package) Unuse(pkg *Package) {
 				break
 			}
 		}
-		// Rebuild to make sure use tree branches are removed as well.
-		obj.vars = map[string]*VarVal{}
-		obj.funcs = map[string]*FuncInfo{}
-		obj.classes = map[string]Class{}
+		// Rebuild to make sure use tree branches are removed as well. The
+		// package's own and imported symbols are kept and only the exported
+		// symbols of the remaining used packages are added.
+		vars := map[string]*VarVal{}
+		for name, vv := range obj.vars {
+			if vv.Pkg == obj || obj.Imports[name] != nil {
+				vars[name] = vv
+			}
+		}
+		funcs := map[string]*FuncInfo{}
+		for name, fi := range obj.funcs {
+			if fi.Pkg == obj || obj.Imports[name] != nil {
+				funcs[name] = fi
+			}
+		}
+		classes := map[string]Class{}
+		for name, c := range obj.classes {
+			if c.Pkg() == obj {
+				classes[name] = c
+			}
+		}
+		obj.vars, obj.funcs, obj.classes = vars, funcs, classes
 		for _, p := range obj.Uses {
 			for name, vv := range p.vars {
-				obj.vars[name] = vv
+				if _, has := obj.vars[name]; !has && vv.Export {
+					obj.vars[name] = vv
+				}
 			}
 			for name, fi := range p.funcs {
-				obj.funcs[name] = fi
+				if _, has := obj.funcs[name]; !has && fi.Export {
+					obj.funcs[name] = fi
+				}
 			}
 			for name, c := range p.classes {
-				obj.classes[name] = c
+				if _, has := obj.classes[name]; !has {
+					obj.classes[name] = c
+				}
 			}
 		}
 	}
@@ -478,6 +502,7 @@ func (obj *Package) Export(name string) {
 		} else {
 			vv := newUnboundVar(name)
 			vv.Export = true
+			vv.Pkg = obj
 			obj.vars[name] = vv
 		}
 	}
